@@ -614,7 +614,8 @@ func (w *walkT) eval(n *node) (core.Value, bool) {
 		running, rok := vals[0], vals[0] != nil
 		for i := 1; rok && i < len(vals); i++ {
 			if running.Type() == types.Number && running.Equal(absorbing) {
-				if !ok || !sameValue(v, absorbing) {
+				// (the query returns the decimal constant allones for | )
+				if !ok || !sameValue(v, absorbing) || (n.op == "|" && !isDnum(v)) {
 					w.bitShort = true
 				}
 				break
@@ -666,4 +667,168 @@ func (w *walkT) eval(n *node) (core.Value, bool) {
 		w.pair(n.op, vals[0], vals[1])
 	}
 	return v, ok
+}
+
+//-------------------------------------------------------------------
+// predicates of known findings that are decided on the expression
+
+// constPoolMerge: known finding compiler-constant-pool-lossy-merge - the
+// compiled language function replaces a later constant by an earlier one that
+// it Equals although they are different values.
+func constPoolMerge(e *node) bool {
+	var consts []*val
+	found := false
+	e.walk(func(n *node) {
+		if n.op != "const" || found {
+			return
+		}
+		for _, c := range consts {
+			if c.packed != n.c.packed && n.c.cv.Type() == c.cv.Type() && n.c.cv.Equal(c.cv) {
+				found = true
+			}
+		}
+		consts = append(consts, n.c)
+	})
+	return found
+}
+
+func unparen(e ast.Expr) ast.Expr {
+	for {
+		u, ok := e.(*ast.Unary)
+		if !ok || u.Tok != tok.LParen {
+			return e
+		}
+		e = u.E
+	}
+}
+
+// orWithEmptyRange: known finding or-with-empty-range (dbms/query/where2.go
+// orSpan), decided on the expression as the query parser/folder builds it: an
+// `or` conjunct one of whose alternatives is `col < ""` or a conjunction /
+// InRange whose lower and upper bound on one column leave nothing.
+func orWithEmptyRange(src string) (r bool) {
+	defer func() {
+		if e := recover(); e != nil {
+			r = false
+		}
+	}()
+	p := qry.NewQueryParser(src, nil, nil)
+	p.EqToIs = true
+	expr := unparen(p.Expression())
+	terms := []ast.Expr{expr}
+	if n, ok := expr.(*ast.Nary); ok && n.Tok == tok.And {
+		terms = n.Exprs
+	}
+	for _, tm := range terms {
+		or, ok := unparen(tm).(*ast.Nary)
+		if !ok || or.Tok != tok.Or {
+			continue
+		}
+		for _, alt := range or.Exprs {
+			if emptyRangeAlt(unparen(alt)) {
+				return true
+			}
+		}
+	}
+	return false
+}
+
+type boundT struct {
+	lo, hi       string
+	hasLo, hasHi bool
+	loInc, hiInc bool
+}
+
+func (b *boundT) lower(p string, inc bool) {
+	if !b.hasLo || p > b.lo || (p == b.lo && !inc) {
+		b.lo, b.loInc, b.hasLo = p, inc, true
+	}
+}
+
+func (b *boundT) upper(p string, inc bool) {
+	if !b.hasHi || p < b.hi || (p == b.hi && !inc) {
+		b.hi, b.hiInc, b.hasHi = p, inc, true
+	}
+}
+
+func (b *boundT) empty() bool {
+	return b.hasLo && b.hasHi && (b.lo > b.hi || (b.lo == b.hi && !(b.loInc && b.hiInc)))
+}
+
+func constPacked(e ast.Expr) (string, bool) {
+	c, ok := e.(*ast.Constant)
+	if !ok {
+		return "", false
+	}
+	pv, ok := c.Val.(core.Packable)
+	if !ok {
+		return "", false
+	}
+	return core.Pack(pv), true
+}
+
+func emptyRangeAlt(alt ast.Expr) bool {
+	terms := []ast.Expr{alt}
+	if n, ok := alt.(*ast.Nary); ok && n.Tok == tok.And {
+		terms = n.Exprs
+	}
+	bounds := map[string]*boundT{}
+	get := func(col string) *boundT {
+		b := bounds[col]
+		if b == nil {
+			b = &boundT{}
+			bounds[col] = b
+		}
+		return b
+	}
+	for _, tm := range terms {
+		switch t := unparen(tm).(type) {
+		case *ast.Binary: // the folder has put the constant on the right
+			id, ok := t.Lhs.(*ast.Ident)
+			if !ok {
+				continue
+			}
+			p, ok := constPacked(t.Rhs)
+			if !ok {
+				continue
+			}
+			switch t.Tok {
+			case tok.Lt:
+				if p == "" {
+					return true
+				}
+				get(id.Name).upper(p, false)
+			case tok.Lte:
+				get(id.Name).upper(p, true)
+			case tok.Gt:
+				get(id.Name).lower(p, false)
+			case tok.Gte:
+				get(id.Name).lower(p, true)
+			case tok.Is:
+				get(id.Name).lower(p, true)
+				get(id.Name).upper(p, true)
+			}
+		case *ast.InRange:
+			id, ok := t.E.(*ast.Ident)
+			if !ok {
+				continue
+			}
+			po, ok1 := constPacked(t.Org)
+			pe, ok2 := constPacked(t.End)
+			if !ok1 || !ok2 {
+				continue
+			}
+			if t.EndTok == tok.Lt && pe == "" {
+				return true
+			}
+			get(id.Name).lower(po, t.OrgTok == tok.Gte)
+			get(id.Name).upper(pe, t.EndTok == tok.Lte)
+		}
+	}
+	for _, b := range bounds {
+		if b.empty() {
+			return true
+		}
+	}
+	return false
 }
